@@ -7,8 +7,7 @@ import (
 // GetWAL returns the storage manager's WAL instance
 // This is used by the replication manager to access the WAL
 func (m *Manager) GetWAL() *wal.WAL {
-	m.mu.RLock()
-	defer m.mu.RUnlock()
-
-	return m.wal
+	// rotateWAL replaces the WAL with an atomic store while holding only the flush lock
+	// (FlushMemTables), so the field must be loaded atomically, like everywhere else
+	return m.getWAL()
 }
